@@ -96,6 +96,19 @@ CLAIMS = {
             '(peak−trough)/peak of the updated registers; LnReturn: update(x1);update(x2);last() = Some(ln(x2/x1)) from any prior state.',
             'Trusted: sfa/vg.py and the case expansion. Not decided: equality with the batch definition as a value, error growth over long streams.',
             'DESIGN.md §5 C13', 'E5'),
+    'C09': ('other', 'static analysis: steady-state linear-form extraction (constant-folded coefficients per N), SCC spectral radii, symbolic exp-form and self-normalisation rules',
+            'For each of the 9 recursive views and each window length in the enumerated range (quick: 1..32 + {48..256}; thorough: 1..128 + up to 4096) the steady-state update is '
+            'extracted as x\' = A x + B u with numeric coefficients and every feedback block has spectral radius < 1; a1 = exp(negative) for all N symbolically; '
+            'TrendFlex/ReFlex outputs are self-normalised with leak 0.96 < 1; Fisher feedback 0.5 behind the ±0.99 clamp.',
+            'Trusted: vg/skeleton/lti modules. Coefficient evaluation is constant propagation of input-independent expressions; no stream is supplied. Not decided: boundedness through '
+            'non-linear stages beyond the stated forms, arbitrary chains, N beyond the range (except via the exp-form rule), LaguerreRSI N=1 (inert).',
+            'DESIGN.md §5 C09', 'E4/E6'),
+    'C11': ('other', 'static analysis: steady-state linear-form extraction compared, through its impulse response, with the difference equations stated in the property',
+            'The extracted steady-state recurrences of SuperSmoother, RoofingFilter, LaguerreFilter and the smoother inside TrendFlex/ReFlex have the same impulse response as the stated '
+            'difference equations for every N in the range (60 samples, rel. tol. 2e-4); alpha/gamma = 2/(N+1); CyberCycle pole radius 1−alpha; Fisher constants; flex normaliser form; '
+            'Fisher window extrema rescanned and covering the newest value; state never depends on the raw argument.',
+            'Trusted: as C09 plus the reference recurrences transcribed from the property text. Not decided: non-linear tails, warm-up/initial-state behaviour, CyberCycle smoothing layout, PFE ratio.',
+            'DESIGN.md §5 C11', 'E4/E6'),
 }
 
 NOT_APPLICABLE = {
